@@ -217,6 +217,14 @@ pub fn run_prelude(sc: &ConnScenario) -> Vec<ConnOutcome> {
     sc.prelude.iter().map(run_conn).collect()
 }
 
+/// Runs the earlier connections first (their outcomes are not judged), then the scenario itself.
+pub fn run_conn_after_prelude(sc: &ConnScenario) -> ConnOutcome {
+    for p in sc.prelude.iter().filter(|p| p.prelude.is_empty()) {
+        let _ = run_conn(p);
+    }
+    run_conn(sc)
+}
+
 pub fn run_conn(sc: &ConnScenario) -> ConnOutcome {
     let rt = new_runtime(sc.seed);
     alloc::reset_alloc();
